@@ -223,12 +223,12 @@ class Models:
                                z3.fpBVToFP(b.t, z3.Float32() if b.ty == 'f32' else z3.Float64()))
             return a.t == b.t
         if isinstance(a, StrV) and isinstance(b, StrV):
-            if a.sid is not None and b.sid is not None:
-                return a.sid == b.sid
             if a.data is not None and b.data is not None:
                 if len(a.data) != len(b.data):
                     return z3.BoolVal(False)
                 return z3.And([x.t == y.t for x, y in zip(a.data, b.data)]) if a.data else z3.BoolVal(True)
+            if a.sid is not None and b.sid is not None:
+                return a.sid == b.sid
             raise Unsupported('string equality between byte string and opaque string')
         if isinstance(a, SliceRef) and isinstance(b, SliceRef):
             if a.n != b.n:
@@ -462,8 +462,14 @@ class Models:
     def register_std(self):
         M = self
 
+        def log_consts(ex, name, is_static):
+            if name.endswith('STATIC_MAX_LEVEL'):
+                return Enum('LevelFilter', 'Off')
+            return None
+        M.const_handlers.append(log_consts)
+
         # ---------- panics
-        @M.rx(r'^(std::rt::begin_panic|std::rt::panic_fmt|core::panicking::panic(_fmt|_nounwind|_explicit|_display)?|core::panicking::panic_bounds_check|core::panicking::assert_failed|std::rt::panic_display|core::option::unwrap_failed|core::option::expect_failed|core::result::unwrap_failed|core::slice::index::slice_\w+_fail|core::str::slice_error_fail|alloc::raw_vec::capacity_overflow|std::process::abort|core::panicking::panic_const::\w+)\b', 'panic')
+        @M.rx(r'^(std::rt::begin_panic|std::rt::panic_fmt|panic_fmt$|assert_failed|core::panicking::panic(_fmt|_nounwind|_explicit|_display)?|core::panicking::panic_bounds_check|core::panicking::assert_failed|std::rt::panic_display|core::option::unwrap_failed|core::option::expect_failed|core::result::unwrap_failed|core::slice::index::slice_\w+_fail|core::str::slice_error_fail|alloc::raw_vec::capacity_overflow|std::process::abort|core::panicking::panic_const::\w+)\b', 'panic')
         def _panic(ex, m, args, callee, dest):
             msg = callee
             for a in args:
@@ -485,15 +491,19 @@ class Models:
                     payload = b.decode(errors='replace') if b is not None else None
             return Opaque('fmt::Arguments', payload)
 
-        @M.rx(r'^(alloc::fmt::format|std::fmt::format|format)\b', 'fmt::format (opaque string)')
+        @M.rx(r'^(alloc::fmt::format|std::fmt::format|format|std::fmt::format::format_inner|alloc::fmt::format::format_inner)\b', 'fmt::format (opaque string)')
         def _format(ex, m, args, callee, dest):
             return StrV(None, z3.Int(ex.fresh('fmt')))
 
-        @M.rx(r'^(log::__private_api::\w+|log::max_level|profiling::\w+|std::io::_e?print)', 'log (no-op)')
+        @M.rx(r'^(log::__private_api::\w+(::<.*>)?|log::max_level|max_level|profiling::\w+|std::io::_e?print)$', 'log (no-op)')
         def _log(ex, m, args, callee, dest):
             if 'max_level' in callee:
                 return Enum('LevelFilter', 'Off')
             return Unit()
+
+        @M.rx(r'^<(log::)?Level as PartialOrd<(log::)?LevelFilter>>::(le|lt|ge|gt)$', 'log level test (logging disabled)')
+        def _log_level(ex, m, args, callee, dest):
+            return mk_bool(False)
 
         # ---------- Deref family (identity on our reference model)
         @M.trait('Deref', 'deref')
@@ -531,6 +541,19 @@ class Models:
             src = info.self_ty_head if info.trait == 'Into' else (last_seg(info.targs) if info.targs else '')
             return M.convert(ex, v, target, info)
 
+        @M.trait('TryInto', 'try_into')
+        def _try_into(ex, args, info):
+            """blanket impl: T: TryInto<U> where U: TryFrom<T>"""
+            target = parse.split_top(info.targs)[0].strip() if info.targs else ''
+            callee = '<%s as TryFrom<%s>>::try_from' % (target, info.self_ty)
+            f = ex.prog.resolve(callee, getattr(ex, 'cur_fn', None))
+            if f is not None:
+                return ex.call_fn(f, [args[0]])
+            mh = M.lookup(callee)
+            if mh is not None:
+                return mh[1](ex, mh[2], [args[0]], callee, info.dest_ty)
+            raise Unsupported('TryInto: no TryFrom impl found for ' + callee)
+
         # ---------- Default / Clone / PartialEq / ToString
         @M.trait('Default', 'default')
         def _default(ex, args, info):
@@ -567,6 +590,9 @@ class Models:
                 return StrV(list(v.data) if v.data is not None else None, v.sid)
             if isinstance(v, SliceRef):
                 return VecM(list(v.items()))
+            if isinstance(v, Sc):
+                # decimal text of a number: only ever part of messages; opaque string with its own identity
+                return StrV(None, z3.Int(ex.fresh('numstr')))
             raise Unsupported('to_string of %s' % type(v).__name__)
 
         # ---------- ustr
@@ -965,7 +991,7 @@ class Models:
             eqs = [M.val_eq(ex, x, args[1]) for x in items]
             return Sc(z3.simplify(z3.Or(eqs)) if eqs else z3.BoolVal(False), 'bool')
 
-        @M.path(VECS | {'slice'}, ['as_slice', 'as_mut_slice', 'as_ref'])
+        @M.path(VECS | {'slice', 'array'}, ['as_slice', 'as_mut_slice', 'as_ref', 'make_contiguous'])
         def _as_slice(ex, args, info):
             v = args[0]
             if isinstance(v, SliceRef):
@@ -1074,8 +1100,10 @@ class Models:
                         raise Unsupported('index with ' + nm)
                 except BoundExceeded:
                     raise PanicPath('range end index out of range for slice', ex.site)
+                if hi > n:
+                    raise PanicPath('range end index %d out of range for slice of length %d' % (hi, n), ex.site)
                 if lo > hi:
-                    raise PanicPath('slice index starts after end', ex.site)
+                    raise PanicPath('slice index starts at %d but ends at %d' % (lo, hi), ex.site)
                 if isinstance(base, SliceRef):
                     return SliceRef(base.ptr, base.start + lo, hi - lo)
                 if isinstance(t, StrV):
@@ -1326,6 +1354,13 @@ class Models:
                 M.record_alloc(ex, args[0], None, info.callee)
             return M.new_container(info.self_ty_head)
 
+        @M.trait('HashMapExt', ['new', 'with_capacity'])
+        @M.trait('HashSetExt', ['new', 'with_capacity'])
+        def _ahash_ext(ex, args, info):
+            if info.method == 'with_capacity':
+                M.record_alloc(ex, args[0], None, info.callee)
+            return M.new_container(info.self_ty)
+
         @M.path(MAPS, ['get', 'get_mut'])
         def _map_get(ex, args, info):
             mp, key = deref(args[0]), deref(args[1])
@@ -1519,7 +1554,7 @@ class Models:
                 return Unit()
             raise Unsupported(callee)
 
-        @M.rx(r'^(std|core)::(hint::black_box|convert::identity)\b', 'identity')
+        @M.rx(r'^((std|core)::(hint::black_box|hint::must_use|convert::identity)\b|must_use(::<.*>)?$)', 'identity')
         def _identity(ex, m, args, callee, dest):
             return args[0]
 
@@ -1666,10 +1701,12 @@ class Models:
                 return h(ex, [v], info)
         if target == 'Variant':
             return self.to_variant(ex, v)
+        if target in ('f32', 'f64') and isinstance(v, Sc):
+            return ex.cast(v, target, 'FloatToFloat' if v.ty in ('f32', 'f64') else 'IntToFloat')
         if target in INT_W and isinstance(v, Sc):
             return ex.cast(v, target, 'IntToInt')
         # fall back to an interpreted `From` impl in the repository
-        f = ex.prog.resolve('<%s as From<%s>>::from' % (target, info.self_ty if info.trait == 'Into' else (info.targs or '')), None) if target else None
+        f = ex.prog.resolve('<%s as From<%s>>::from' % (target, info.self_ty if info.trait == 'Into' else (info.targs or '')), getattr(ex, 'cur_fn', None)) if target else None
         if f is not None:
             return ex.call_fn(f, [v])
         raise Unsupported('conversion into %s of %s (%s)' % (target, type(v).__name__, info.callee))
@@ -1683,7 +1720,7 @@ class Models:
             return err
         src = err.what.split('::')[-1] if isinstance(err, Opaque) else (getattr(err, 'name', None) or getattr(err, 'ename', None) or '')
         try:
-            f = ex.prog.resolve('<%s as From<%s>>::from' % (want, err.what if isinstance(err, Opaque) else src), None)
+            f = ex.prog.resolve('<%s as From<%s>>::from' % (want, err.what if isinstance(err, Opaque) else src), getattr(ex, 'cur_fn', None))
         except Unsupported:
             f = None
         if f is not None:
